@@ -65,6 +65,7 @@ fn dispatch(op: &str, req: &Value) -> Value {
         "env-apply" => ops_env::apply(req),
         "env-roundtrip" => ops_env::roundtrip(req),
         "env-paths" => ops_env::paths(req),
+        "env-read" => ops_env::read_side(req),
         "argv" => ops_argv::run(req),
         "runner-scenario" => ops_runner::run(req),
         "normalize-descriptor" => ops_descriptor::run(req),
